@@ -152,7 +152,7 @@ PLUMBING = [
     r"ops::Deref::deref$", r"ops::DerefMut::deref_mut$", r"convert::AsRef::as_ref$", r"convert::AsMut::as_mut$",
     r"borrow::Borrow::borrow$", r"clone::Clone::clone$", r"convert::Into::into$", r"convert::From::from$",
     r"ops::Try::branch$", r"ops::FromResidual::from_residual$", r"Option::<T>::as_ref$", r"Option::<T>::as_deref$",
-    r"Option::<T>::as_mut$", r"Result::<T, E>::as_ref$", r"future::IntoFuture::into_future$", r"future::Future::poll$",
+    r"Option::<T>::as_mut$", r"Result::<T, E>::as_ref$", r"future::IntoFuture::into_future$", r"Future::poll$",
     r"pin::Pin::<Ptr>::new_unchecked$", r"pin::Pin::<Ptr>::new$", r"pin::Pin::<&'a mut T>::get_mut", r"task::ready",
     r"boxed::Box::<T>::new$", r"boxed::Box::<T>::pin$", r"sync::Arc::<T>::new$", r"get_context$", r"hint::must_use$",
     r"Pin::<Ptr>::as_mut$", r"mem::take$", r"mem::replace$", r"Option::<T>::take$",
@@ -194,3 +194,55 @@ def root_fn(facts, fn):
     while cur.raw["kind"] == "Closure" and cur.raw.get("parent") in facts.F:
         cur = facts.F[cur.raw["parent"]]
     return cur
+
+
+def switches_on_value(fn, local):
+    """Switch blocks whose scrutinee is `local` or a plain copy/move of it (let-bound bool)."""
+    out = []
+    for sbb, st in fn.switches():
+        d = st["discr"]
+        cur = operand_local(d)
+        seen = 0
+        while cur is not None and seen < 6:
+            if cur == local:
+                out.append((sbb, st))
+                break
+            ds = fn.defs().get(cur, [])
+            if len(ds) != 1 or ds[0][1] != "assign" or ds[0][2]["rv"]["rv"] != "use":
+                break
+            cur = operand_local(ds[0][2]["rv"]["op"])
+            seen += 1
+    return out
+
+
+def option_some_edges(fn):
+    """Edges on which an Option value is known to be Some: yields (switch_bb, target_bb, operand_of_the_option).
+    Recognises `x.is_some()` (true edge), `x.is_none()` (false edge) and a discriminant
+    switch / `if let Some(..)` / `match` on an Option place (the Some target)."""
+    out = []
+    for sbb, st in fn.switches():
+        info = fn.switch_on(sbb)
+        if info["kind"] == "bool":
+            # follow copies of the bool back to the producing call
+            dbb, kind, node = info["def"]
+            hops = 0
+            while kind == "assign" and node["rv"]["rv"] == "use" and hops < 5:
+                l = operand_local(node["rv"]["op"])
+                ds = fn.defs().get(l, []) if l is not None else []
+                if len(ds) != 1:
+                    break
+                dbb, kind, node = ds[0]
+                hops += 1
+            if kind != "call":
+                continue
+            callee = node.get("callee") or ""
+            tb, fb = fn.bool_edges(sbb)
+            if callee.endswith("Option::<T>::is_some"):
+                out.append((sbb, tb, node["args"][0]))
+            elif callee.endswith("Option::<T>::is_none"):
+                out.append((sbb, fb, node["args"][0]))
+        elif info["kind"] == "discr" and info["adt"] == "std::option::Option":
+            some = [i for i, n in info["variants"].items() if n == "Some"]
+            if some:
+                out.append((sbb, fn.switch_target(sbb, some[0]), {"k": "copy", "pl": info["place"]}))
+    return out
